@@ -464,7 +464,7 @@ func (n *normaliser) classify(pk *packages.Package, s ast.Stmt, next ast.Stmt) *
 		if s.Init != nil {
 			switch in := s.Init.(type) {
 			case *ast.AssignStmt:
-				if len(in.Rhs) == 1 && in.Tok == token.DEFINE {
+				if len(in.Rhs) == 1 && (in.Tok == token.DEFINE || in.Tok == token.ASSIGN) {
 					return mk(in.Rhs[0], formIfInit)
 				}
 			}
@@ -1044,7 +1044,7 @@ func (n *normaliser) expand(cs *callSite) []textEdit {
 	case formIfInit:
 		iff := cs.stmt.(*ast.IfStmt)
 		as := iff.Init.(*ast.AssignStmt)
-		lhs, lhsDefine = as.Lhs, true
+		lhs, lhsDefine = as.Lhs, as.Tok == token.DEFINE
 		if last >= 0 && results[last].isErr && len(as.Lhs) == len(results) && iff.Else == nil {
 			if id, ok := as.Lhs[last].(*ast.Ident); ok && id.Name != "_" {
 				probe := &ast.IfStmt{Cond: iff.Cond, Body: iff.Body}
@@ -1238,6 +1238,11 @@ func (n *normaliser) expand(cs *callSite) []textEdit {
 		if cs.form == formAssign {
 			as := cs.stmt.(*ast.AssignStmt)
 			fmt.Fprintf(&out, "%s %s %s%s; ", n.src(as.Lhs[0].Pos(), as.Lhs[len(as.Lhs)-1].End()), as.Tok, strings.Join(tmps, ", "), use())
+		}
+		if cs.form == formIfInit && !lhsDefine {
+			// `if x, err = f(…); err != nil {…}` assigns variables that outlive the statement
+			as := cs.stmt.(*ast.IfStmt).Init.(*ast.AssignStmt)
+			fmt.Fprintf(&out, "%s = %s; ", n.src(as.Lhs[0].Pos(), as.Lhs[len(as.Lhs)-1].End()), strings.Join(tmps, ", "))
 		}
 		return []textEdit{{file, stmtStart, n.off(regionEnd), out.String() + n.lineDir(regionEnd)}}
 	}
